@@ -63,7 +63,8 @@ class SemiMarkovDecisionProcess:
     ) -> DictDistribution:
         if a in self.mdp.actions(s):
             ns_dist : DictDistribution = self.mdp.next_state_dist(s, a)
-            return ns_dist.marginalize(lambda ns: (ns, 1, self.mdp.reward(s, a, ns)))
+            # (outcomes listed with probability 0 are no outcomes: the reward function may not be defined for them)
+            return DictDistribution({(ns, 1, self.mdp.reward(s, a, ns)): p for ns, p in ns_dist.items() if p > 0})
         elif isinstance(a, Option):
             simulations = self.run_simulations(s, a)
             counts = defaultdict(int)
